@@ -137,8 +137,9 @@ type c03Row struct {
 	// delegate: a key that holds a delegated (weaker or equal) right on the object, e.g. an NNS admin
 	delegate        func(e *c03Env) neotest.Signer
 	delegateAllowed bool
-	falsey          bool   // refusal is HALT(false)
-	target          string // key in e.h when it is not the contract name
+	also            func(e *c03Env) []c03Class // further deficient classes specific to the method
+	falsey          bool                       // refusal is HALT(false)
+	target          string                     // key in e.h when it is not the contract name
 }
 
 func same(args ...any) func(*c03Env) []any { return func(*c03Env) []any { return args } }
@@ -159,7 +160,16 @@ func c03Table() map[string]c03Row {
 	pub := func(s neotest.SingleSigner) []byte { return s.Account().PublicKey().Bytes() }
 	t := map[string]c03Row{
 		// ---- alphabet
-		"alphabet.emit/0":           {req: reqKey, args: same(), key: func(e *c03Env) neotest.Signer { return e.c.Member(0) }},
+		"alphabet.emit/0": {req: reqKey, args: same(), key: func(e *c03Env) neotest.Signer { return e.c.Member(0) },
+			// the Inner Ring (NeoFSAlphabet role) is another key list than the Alphabet (committee): none of its nodes,
+			// at whatever position of the sorted role list, may emit
+			also: func(e *c03Env) []c03Class {
+				var cl []c03Class
+				for i, k := range e.ir {
+					cl = append(cl, c03Class{fmt.Sprintf("Inner Ring node %d of the NeoFSAlphabet role (not an Alphabet node)", i), []neotest.Signer{neotest.NewSingleSigner(walletOf(k))}, false})
+				}
+				return cl
+			}},
 		"alphabet.vote/2":           {req: reqAlphabet, args: func(e *c03Env) []any { return []any{int64(2), []any{e.c.Pubs[0].Bytes()}} }},
 		"alphabet.onNEP17Payment/3": {req: reqCallback, args: func(e *c03Env) []any { return []any{e.u0.ScriptHash(), int64(5), nil} }},
 		"alphabet.update/3":         upd("alphabet"),
@@ -325,6 +335,9 @@ func (e *c03Env) classes(r c03Row) []c03Class {
 		cl := []c03Class{{"nobody relevant (a stranger)", S(e.strng), false}, {"the Alphabet without the named key", S(alpha), false}, {"the committee majority without the named key", S(major), false}}
 		if r.delegate != nil && !r.delegateAllowed {
 			cl = append(cl, c03Class{"the delegated admin without the owner", S(r.delegate(e)), false})
+		}
+		if r.also != nil {
+			cl = append(cl, r.also(e)...)
 		}
 		cl = append(cl, c03Class{"the named key", S(key), true})
 		if r.delegate != nil && r.delegateAllowed {
